@@ -3,6 +3,7 @@
 // consumes it under a seeded chunk schedule.  Sanitizers + watchdog + well-formedness + reusability + allocation bound are the oracle.
 #pragma once
 #include "wire_common.h"
+#include "../netsim/wraps.h"
 #include "iogateway/PacketTunnelIOGateway.h"
 #include "iogateway/MiniPacketTunnelIOGateway.h"
 #include "dataio/PacketDataIO.h"
@@ -95,7 +96,8 @@ inline Plan Gen(uint64_t seed)
    const uint32_t maxin = cfg.oneIn(8) ? 0 : (16u<<20);
    p.push_back("cfg prop=C02 gw=" + std::string(kTNames[t]) + " enc=" + I(enc) + " lru=" + U(lrus[cfg.below(4)]) + " minchunk=" + U(cfg.oneIn(2) ? 0 : (1 + cfg.below(20)))
                + " mtu=" + U(mtu) + " zl=" + I(cfg.oneIn(2) ? 0 : (1 + cfg.below(9))) + " maxin=" + U(maxin) + " slave=" + I(cfg.oneIn(3) ? 0 : 1)
-               + " reuse=" + I(((t == T_WS)&&(!cfg.oneIn(40))) ? 0 : 1));   // WebSocket gateways have no Reset() override (known finding F22): sampled rarely so it cannot mask the rest
+               + " reuse=" + I(((t == T_WS)&&(!cfg.oneIn(40))) ? 0 : 1)
+               + ((t == T_WS) ? (" wsc=" + I(cfg.oneIn(3) ? 1 : 0)) : std::string()));   // wsc=1: the hostile bytes are what a SERVER sent and the receiver is the CLIENT-role gateway (handshake response check, unmasked frames)   // WebSocket gateways have no Reset() override (known finding F22): sampled rarely so it cannot mask the rest
    p.push_back("chunks rr " + SchedToStr(GenChunkSchedule(fl, cfg.oneIn(3) ? 0 : -1)));
 
    const int numMsgs = 1 + (int) wl.below(6);
@@ -170,7 +172,7 @@ static AbstractMessageIOGatewayRef MakeSender(int t, const Cfg & cfg)
       case T_TEXT: return AbstractMessageIOGatewayRef(new PlainTextMessageIOGateway);
       case T_RAW:  return AbstractMessageIOGatewayRef(new RawDataMessageIOGateway);
       case T_SLIP: return AbstractMessageIOGatewayRef(new SLIPFramedDataMessageIOGateway);
-      case T_WS:   {WebSocketMessageIOGateway * c = new WebSocketMessageIOGateway("/", "localhost", "muscle", "origin"); c->SetSlaveGateway(AbstractMessageIOGatewayRef(new MessageIOGateway(enc))); return AbstractMessageIOGatewayRef(c);}
+      case T_WS:   {WebSocketMessageIOGateway * c = cfg.i("wsc", 0) ? new WebSocketMessageIOGateway : new WebSocketMessageIOGateway("/", "localhost", "muscle", "origin"); c->SetSlaveGateway(AbstractMessageIOGatewayRef(new MessageIOGateway(enc))); return AbstractMessageIOGatewayRef(c);}
       case T_TUNNEL: return AbstractMessageIOGatewayRef(new PacketTunnelIOGateway(slave, mtu));
       case T_MINITUNNEL: {MiniPacketTunnelIOGateway * g = new MiniPacketTunnelIOGateway(slave, mtu); if (cfg.i("zl", 0) > 0) g->SetZLibCompressionLevel((uint8) cfg.i("zl", 0)); return AbstractMessageIOGatewayRef(g);}
       default:     return AbstractMessageIOGatewayRef(new MessageIOGateway(enc));
@@ -187,7 +189,8 @@ static AbstractMessageIOGatewayRef MakeReceiver(int t, const Cfg & cfg)
       case T_TEXT: return (cfg.i("lru", 0) % 3 == 0) ? AbstractMessageIOGatewayRef(new TelnetPlainTextMessageIOGateway) : AbstractMessageIOGatewayRef(new PlainTextMessageIOGateway);   // (every third text run: the telnet variant, whose IAC state machine sees the rewritten bytes)
       case T_RAW:  return AbstractMessageIOGatewayRef(new RawDataMessageIOGateway((uint32) cfg.i("minchunk", 0)));
       case T_SLIP: return AbstractMessageIOGatewayRef(new SLIPFramedDataMessageIOGateway);
-      case T_WS:   {WebSocketMessageIOGateway * s = new WebSocketMessageIOGateway; MessageIOGateway * sg = new MeteredExactFrame<MessageIOGateway>(); if (maxin) sg->SetMaxIncomingMessageSize(maxin); s->SetSlaveGateway(AbstractMessageIOGatewayRef(sg)); return AbstractMessageIOGatewayRef(s);}
+      case T_WS:   {if (cfg.i("wsc", 0)) SimRandomReset(777);   // the client's handshake key comes from the PRNG seam: same key as the client of the valid exchange
+                    WebSocketMessageIOGateway * s = cfg.i("wsc", 0) ? new WebSocketMessageIOGateway("/", "localhost", "muscle", "origin") : new WebSocketMessageIOGateway; MessageIOGateway * sg = new MeteredExactFrame<MessageIOGateway>(); if (maxin) sg->SetMaxIncomingMessageSize(maxin); s->SetSlaveGateway(AbstractMessageIOGatewayRef(sg)); return AbstractMessageIOGatewayRef(s);}
       case T_TUNNEL: return AbstractMessageIOGatewayRef(new PacketTunnelIOGateway(slave, mtu));
       case T_MINITUNNEL: return AbstractMessageIOGatewayRef(new MiniPacketTunnelIOGateway(slave, mtu));
       default:     {MessageIOGateway * g = new MeteredExactFrame<MessageIOGateway>(); if (maxin) g->SetMaxIncomingMessageSize(maxin); return AbstractMessageIOGatewayRef(g);}
@@ -217,6 +220,21 @@ inline void BuildValid(int t, const Cfg & cfg, const std::vector<MessageRef> & m
    {
       // a clean client<->server exchange; what the client wrote (handshake request + frames) is the valid stream
       SimStream a2b, b2a; std::string rec;
+      if (cfg.i("wsc", 0))
+      {
+         // client role under test: the valid stream is what the SERVER wrote (handshake response + unmasked frames) to a client that sent its request
+         AbstractMessageIOGatewayRef C = MakeReceiver(t, cfg), V = MakeSender(t, cfg);   // C = client (same PRNG key as the later receiver), V = server
+         C()->SetDataIO(DataIORef(new SimDataIO(&b2a, &a2b))); V()->SetDataIO(DataIORef(new SimDataIO(&a2b, &b2a)));
+         QueueGatewayMessageReceiver vq;
+         for (auto & m : msgs) (void) V()->AddOutgoingMessage(m);
+         for (int i=0; i<64; i++)
+         {
+            (void) C()->DoOutput(); (void) V()->DoInput(vq); (void) V()->DoOutput();   // the client never reads here: b2a accumulates everything the server says
+            if ((i > 2)&&(V()->HasBytesToOutput() == false)&&(a2b.q.empty())) break;
+         }
+         b.stream.assign(b2a.q.begin(), b2a.q.end());
+         return;
+      }
       AbstractMessageIOGatewayRef S = MakeSender(t, cfg), R = MakeReceiver(t, cfg);
       S()->SetDataIO(DataIORef(new SimDataIO(&b2a, &a2b))); R()->SetDataIO(DataIORef(new SimDataIO(&a2b, &b2a)));
       QueueGatewayMessageReceiver rq, sq;
@@ -506,6 +524,7 @@ inline void Exec(const Plan & plan, RunResult & res)
       if (dgram) {pio = new QueuePacketDataIO((uint32) cfg.i("mtu", 1500)); pio->_rx.assign(hostile.packets.begin(), hostile.packets.end()); R()->SetDataIO(DataIORef(pio));}
       else {in.q.assign(hostile.stream.begin(), hostile.stream.end()); in.closed = true; in.SetSched(false, rsched); R()->SetDataIO(DataIORef(new SimDataIO(&in, &out)));}
       QueueGatewayMessageReceiver rq; size_t idle = 0, calls = 0;
+      if ((t == T_WS)&&(cfg.i("wsc", 0))) {(void) R()->DoOutput(); out.q.clear(); st.inc("ws_client_role_runs");}   // the client's handshake request goes out first
       const size_t maxCalls = (hostile.stream.size() + hostile.packets.size() + 50) * (rsched.size() + 3);   // every schedule cycle moves at least one byte
       while(calls < maxCalls)
       {
